@@ -222,6 +222,7 @@ def check_C01(rep):
     d12 = rep.notes.get("d12_instances", [])
     if d12: rep.known_finding(D12_TEXT + f" [{len(d12)} grammar(s) this run, e.g. {run.meta[d12[0]]['rules']}]")
     FX.run_fixed(rep, "big_grammar.cpp", "g++", "-pthread", "verdict-of-a-large-conflict-free-grammar-differs-from-its-language")
+    FX.run_fixed(rep, "wide_grammar.cpp", "g++", "-pthread", "verdict-of-a-conflict-free-grammar-with-more-than-64-terms-or-nonterminals-differs-from-its-language")
     # the representation below the generator mirror: item sets / FIRST sets are stdex::cbitset words, rule_infos are sorted by stdex::sort
     rep.notes["container_sequences"] = contfam.run_containers(rep, what=("B", "S"))
     rep.notes["utils_cases"] = contfam.run_utils(rep)       # symbol lookup by name: utils::str_equal / find_str at the byte level
